@@ -67,3 +67,7 @@ add("C10", "exploration", "model-based property-based testing of multi-session h
 add("C17", "exploration", "exhaustive single-bit / truncation tampering of sample datagrams and tokens; property-based handshake/session histories with nonce-uniqueness oracle by trial decryption",
     "Every bit and every truncation length of a sample of every sealed packet kind and direction, every bit of a token's sealed part, nonce, protocol id and expiry, and every cross-key / cross-protocol opening must fail; in generated histories every emitted datagram is attributed to a key by trial decryption and no (endpoint, key) pair may seal two different datagrams with one sequence number.",
     NETNOTE, "DESIGN.md 4/C17")
+
+add("C18", FE, "stateful property-based testing over loss/delay/duplication schedules, tick lengths, timeouts, address lists and limit changes, with a reference model of the last authentic fresh packet per side and a bounded-liveness check after faults stop",
+    "The harness owns every datagram and both clocks; timeouts are compared with the model at every update (must fire / must not fire, on both sides, regardless of forged or replayed traffic), half-open sessions must vanish at token expiry, denials must be explained by a full server, and after the network heals every client still connecting under the stated preconditions must be connected on both sides within a computed bound.",
+    NETNOTE, "DESIGN.md 4/C18")
